@@ -65,6 +65,7 @@ fn return_oldest_receive_waiter(
 }
 
 /// Internal state of the channel
+#[cfg_attr(futures_intrusive_verif, derive(Debug))]
 struct ChannelState<T, A>
 where
     A: RingBuf<Item = T>,
@@ -691,6 +692,7 @@ mod if_alloc {
         use core::sync::atomic::{AtomicUsize, Ordering};
 
         /// Shared Channel State, which is referenced by Senders and Receivers
+        #[cfg_attr(futures_intrusive_verif, derive(Debug))]
         struct GenericChannelSharedState<MutexType, T, A>
         where
             MutexType: RawMutex,
@@ -1116,6 +1118,20 @@ mod if_alloc {
                     .push(self.inner.receivers.load(Ordering::SeqCst) as u64);
                 snap
             }
+
+            /// `Debug` rendering of the shared state and of the channel state
+            pub fn verif_debug(&self) -> alloc::string::String
+            where
+                MutexType: core::fmt::Debug,
+                T: core::fmt::Debug,
+                A: core::fmt::Debug,
+            {
+                alloc::format!(
+                    "{:?} {}",
+                    *self.inner,
+                    self.inner.channel.verif_debug()
+                )
+            }
         }
 
         #[cfg(futures_intrusive_verif)]
@@ -1246,6 +1262,16 @@ mod verif_hooks {
                 describe_send(e, tag_of)
             });
             snap
+        }
+
+        /// `Debug` rendering of the complete internal state (all fields,
+        /// including ones this hook does not know about)
+        pub fn verif_debug(&self) -> alloc::string::String
+        where
+            T: core::fmt::Debug,
+            A: core::fmt::Debug,
+        {
+            alloc::format!("{:?}", *self.inner.lock())
         }
     }
 
